@@ -353,6 +353,22 @@ func runC02(r *core.Run) {
 	}
 	r.Set("extreme_universe", xu)
 	cases = append(cases, dirCase{Builder: "threshold-plain"}, dirCase{Builder: "threshold-sharded"})
+	// two child shards under one root, at every pair of buckets (with and
+	// without a value link in front of them): bucket numbers and link positions
+	// are different things and every combination of the two occurs
+	for _, fw := range [][2]int{{8, 3}, {16, 4}} {
+		f, w := fw[0], fw[1]
+		deeper := gen.BucketProbeNames[2*w] // f names per bucket of the root
+		for x := 0; x < f; x++ {
+			for y := x + 1; y < f; y++ {
+				names := []string{deeper[x*f], deeper[x*f+1], deeper[y*f], deeper[y*f+1]}
+				cases = append(cases, dirCase{Builder: "sharded", Fanout: f, Names: names})
+				if x > 0 && (x+y)%3 == 0 {
+					cases = append(cases, dirCase{Builder: "sharded", Fanout: f, Names: append([]string{deeper[0]}, names...)})
+				}
+			}
+		}
+	}
 	cases = append(cases, dirCase{Builder: "sharded", Fanout: 256, NGen: 2000}, dirCase{Builder: "sharded", Fanout: 8, NGen: 600})
 	if !r.Quick() {
 		cases = append(cases, dirCase{Builder: "sharded", Fanout: 256, NGen: 20000}, dirCase{Builder: "sharded", Fanout: 1024, NGen: 20000}, dirCase{Builder: "sharded", Fanout: 16, NGen: 5000})
